@@ -294,3 +294,111 @@ Section SaveFrame.
     intros Hn0. apply Hn. exact (write_names_stable _ _ _ _ _ W0 j d m s x Hj Hn0).
   Qed.
 End SaveFrame.
+
+(* ---- the same for any other path: a write or an unlink never makes a path name an old file it did not name before ---- *)
+Lemma write_names_stable_any w path data mt w0 :
+  write_file w path data mt = Ok w0 ->
+  forall q j d m s x, node w j = Some (IFile d m s x) -> names w0 q j -> names w q j.
+Proof.
+  unfold write_file. destruct (resolve w (dirname path)) as [di|] eqn:Er; cbn [bind]; [|discriminate].
+  destruct (node w di) as [[dev par ents| |]|] eqn:En; try discriminate.
+  destruct (lookup_name ents (basename path)) as [[i|e]|] eqn:El; try discriminate.
+  - destruct (node w i) as [[| fdev fm fs fx |]|] eqn:Ei; try discriminate.
+    intros H q j d m s x Hj [di' [dv [pr [es [R [Nd Lk]]]]]]. injection H as Hw0. symmetry in Hw0.
+    assert (S : same_dirs w w0 i).
+    { split; [rewrite Hw0; reflexivity|]. split.
+      - intros k Hk. rewrite Hw0. unfold node. cbn [w_nodes]. apply lookup_replace_other. exact Hk.
+      - exists fdev, fm, fs, fx, fdev, mt, (N.of_nat (length data)), data. split; [exact Ei|].
+        rewrite Hw0. unfold node. cbn [w_nodes]. eapply lookup_replace_same. exact Ei. }
+    rewrite (resolve_same w w0 i S) in R.
+    assert (Hne : di' <> i).
+    { intros ->. destruct S as [_ [_ [? [? [? [? [? [? [? [? [_ Hi0]]]]]]]]]]]. rewrite Hi0 in Nd. discriminate. }
+    destruct S as [_ [Ho _]]. rewrite (Ho di' Hne) in Nd. exists di', dv, pr, es. repeat split; assumption.
+  - intros H q j d m s x Hj [di' [dv [pr [es [R [Nd Lk]]]]]]. injection H as Hw0. symmetry in Hw0.
+    rewrite (existsb_lookup_none _ _ El) in Hw0.
+    assert (Hdf : di <> fresh_ino w) by (intros E; rewrite E in En; rewrite fresh_not_in in En; discriminate).
+    assert (C : created w w0 di dev par ents (basename path)).
+    { split; [exact En|]. split; [exact El|]. split; [rewrite Hw0; reflexivity|]. split; [|split].
+      - rewrite Hw0. unfold node. cbn [w_nodes]. apply lookup_app_some. eapply lookup_replace_same. exact En.
+      - exists dev, mt, (N.of_nat (length data)), data. rewrite Hw0. unfold node. cbn [w_nodes].
+        rewrite lookup_app_none; [cbn [lookup_ino]; rewrite N.eqb_refl; reflexivity|].
+        apply lookup_replace_none. exact (fresh_not_in w).
+      - intros k Hk1 Hk2. rewrite Hw0. unfold node. cbn [w_nodes].
+        destruct (lookup_ino (w_nodes w) k) as [nk|] eqn:Ek.
+        + apply lookup_app_some. rewrite lookup_replace_other by exact Hk1. exact Ek.
+        + rewrite lookup_app_none by (apply lookup_replace_none; exact Ek). cbn [lookup_ino].
+          destruct (k =? fresh_ino w) eqn:E; [apply N.eqb_eq in E; contradiction|reflexivity]. }
+    pose proof C as [_ [_ [_ [Hd0 [[fd [fm [fs [fx Hf]]]] Ho]]]]].
+    assert (Hnf : di' <> fresh_ino w) by (intros E; subst di'; congruence).
+    pose proof (resolve_created w w0 di dev par ents (basename path) C _ _ R Hnf) as R'.
+    destruct (N.eq_dec di' di) as [->|Hnd].
+    + rewrite Hd0 in Nd. inversion Nd; subst. rewrite (lookup_name_app ents (basename path) _ (basename q) El) in Lk.
+      destruct (ustr_eqb (basename q) (basename path)) eqn:E.
+      * apply ustr_eqb_eq in E. rewrite E, El in Lk. inversion Lk; subst j. rewrite fresh_not_in in Hj. discriminate.
+      * exists di, dv, pr, ents. repeat split; assumption.
+    + rewrite (Ho di' Hnd Hnf) in Nd. exists di', dv, pr, es. repeat split; assumption.
+Qed.
+
+(* unlink: a directory loses one entry *)
+Definition removed (w w0 : world) (di dev par : N) (ents : list (list N * target)) (name : list N) : Prop :=
+  node w di = Some (IDir dev par ents) /\ w_root w0 = w_root w /\
+  node w0 di = Some (IDir dev par (filter (fun e => negb (ustr_eqb (fst e) name)) ents)) /\
+  (forall k, k <> di -> node w0 k = node w k).
+
+Lemma lookup_name_filter ents name c t :
+  lookup_name (filter (fun e : list N * target => negb (ustr_eqb (fst e) name)) ents) c = Some t -> lookup_name ents c = Some t.
+Proof.
+  induction ents as [|[m x] r IH]; [discriminate|]. cbn [filter fst]. destruct (ustr_eqb m name) eqn:E; cbn [negb].
+  - intros H. cbn [lookup_name]. destruct (ustr_eqb c m) eqn:E2; [|apply IH; exact H].
+    (* c = m = name: nothing named [name] is left in the filtered list *)
+    exfalso. apply ustr_eqb_eq in E, E2. subst. clear IH. induction r as [|[m2 x2] r IH2]; [discriminate|].
+    cbn [filter fst] in H. destruct (ustr_eqb m2 name) eqn:E3; cbn [negb] in H; [apply IH2; exact H|].
+    cbn [lookup_name] in H. destruct (ustr_eqb name m2) eqn:E4; [|apply IH2; exact H].
+    apply ustr_eqb_eq in E4. subst m2. rewrite (proj2 (ustr_eqb_eq name name) eq_refl) in E3. discriminate.
+  - cbn [lookup_name]. destruct (ustr_eqb c m); [trivial|apply IH].
+Qed.
+
+Lemma resolve_comps_removed w w0 di dev par ents name : removed w w0 di dev par ents name ->
+  forall comps cur k, resolve_comps w0 cur comps = Ok k -> resolve_comps w cur comps = Ok k.
+Proof.
+  intros [Hd [_ [Hd0 Ho]]]. induction comps as [|c r IH]; intros cur k H; [exact H|].
+  cbn [resolve_comps] in *. destruct (N.eq_dec cur di) as [->|Hnd].
+  - rewrite Hd0 in H. rewrite Hd. destruct c as [|c0 c']; [apply IH; exact H|].
+    destruct (is_dot _); [apply IH; exact H|]. destruct (is_dotdot _); [apply IH; exact H|].
+    destruct (lookup_name (filter _ ents) (c0 :: c')) as [t|] eqn:E; [|discriminate].
+    rewrite (lookup_name_filter _ _ _ _ E). destruct t; [apply IH; exact H|exact H].
+  - rewrite (Ho cur Hnd) in H. destruct (node w cur) as [[dv pr es| |]|]; try exact H.
+    destruct c as [|c0 c']; [apply IH; exact H|].
+    destruct (is_dot _); [apply IH; exact H|]. destruct (is_dotdot _); [apply IH; exact H|].
+    destruct (lookup_name es (c0 :: c')) as [[j|e]|]; [apply IH; exact H|exact H|exact H].
+Qed.
+
+Lemma resolve_removed w w0 di dev par ents name : removed w w0 di dev par ents name ->
+  forall p k, resolve w0 p = Ok k -> resolve w p = Ok k.
+Proof.
+  intros C p k H. pose proof C as [Hd [Hr [Hd0 Ho]]]. unfold resolve in *.
+  destruct (existsb (N.eqb 0) p); [discriminate|]. destruct (existsb bad_surrogate p); [discriminate|].
+  rewrite Hr in H. destruct (resolve_comps w0 (w_root w) _) as [k0|] eqn:E; cbn [bind] in H; [|discriminate].
+  rewrite (resolve_comps_removed w w0 di dev par ents name C _ _ _ E). cbn [bind].
+  destruct (py_endswith _ _); [|exact H].
+  destruct (N.eq_dec k0 di) as [->|Hnd]; [rewrite Hd0 in H; rewrite Hd; exact H|rewrite (Ho k0 Hnd) in H; exact H].
+Qed.
+
+Lemma unlink_names_stable_any w path w0 :
+  unlink_file w path = Ok w0 -> forall q j, names w0 q j -> names w q j.
+Proof.
+  unfold unlink_file. destruct (resolve w (dirname path)) as [di|] eqn:Er; cbn [bind]; [|discriminate].
+  destruct (node w di) as [[dev par ents| |]|] eqn:En; try discriminate.
+  destruct (lookup_name ents (basename path)); [|discriminate].
+  intros H q j [di' [dv [pr [es [R [Nd Lk]]]]]]. injection H as Hw0. symmetry in Hw0.
+  assert (C : removed w w0 di dev par ents (basename path)).
+  { split; [exact En|]. split; [rewrite Hw0; reflexivity|]. split.
+    - rewrite Hw0. unfold node. cbn [w_nodes set_dirent]. eapply lookup_replace_same. exact En.
+    - intros k Hk. rewrite Hw0. unfold node. cbn [w_nodes]. apply lookup_replace_other. exact Hk. }
+  pose proof C as [_ [Hr [Hd0 Ho]]].
+  pose proof (resolve_removed w w0 di dev par ents _ C _ _ R) as R'.
+  destruct (N.eq_dec di' di) as [->|Hnd].
+  - rewrite Hd0 in Nd. inversion Nd; subst. exists di, dv, pr, ents. repeat split; try assumption.
+    eapply lookup_name_filter. exact Lk.
+  - rewrite (Ho di' Hnd) in Nd. exists di', dv, pr, es. repeat split; assumption.
+Qed.
